@@ -26,7 +26,7 @@ REQUIRED_OBS = {"slices": 300, "pixels_decided": 20000, "class:boxface": 20, "cl
                 "class:gap+": 20, "class:domainface": 10, "class:centre": 20, "out_of_domain_refused": 10,
                 "default_position": 5, "parallel": 50, "reuse": 5, "cli_runs": 30}
 TIMEOUT = {"quick": 600, "thorough": 3000}
-NAMES = ["ax", "ay", "az", "tagx", "tagy", "tagz", "rnd", "near"]
+NAMES = ["ax", "ay", "az", "tagx", "tagy", "tagz", "rnd", "near", "cix", "ciy", "ciz"]
 
 
 def cases(tier, seed):
@@ -75,13 +75,16 @@ def judge(m, vol, n, pos, L, fl, o1, o2, ref):
                          f"poison differ at {int(np.sum(a.view(np.uint64) != np.ascontiguousarray(o2[nm]).view(np.uint64)))} pixels)")
             continue
         if poison.has_poison(a, np.nan) and not np.isnan(ref["value"][..., names.index(nm)][dec]).any():
-            if np.isnan(a).any():
-                probs.append(f"field {nm}: {int(np.isnan(a).sum())} pixels hold the poison value (never written)")
+            # fields holding infinities can legitimately give NaN (inf - inf) where the two brackets come
+            # from different levels (undecided pixels): only decided pixels are looked at for them
+            isn = np.isnan(a) & dec.T if nm.startswith("ci") else np.isnan(a)
+            if isn.any():
+                probs.append(f"field {nm}: {int(isn.sum())} pixels hold the poison value (never written)")
                 continue
         e = ref["value"][..., names.index(nm)].T
         d = dec.T
-        scale = max(1.0, float(np.nanmax(np.abs(e[d]))) if d.any() else 1.0)
-        bad = d & ~(np.abs(a - e) <= 1e-9 * scale)
+        scale = slicemodel.scale_of(e[d])
+        bad = d & slicemodel.differs(a, e, 1e-9 * scale)
         if bad.any():
             j, i = np.argwhere(bad)[0]
             probs.append(f"field {nm}: {int(bad.sum())} decided pixels differ from the interpolation of "
@@ -138,7 +141,9 @@ def run_case(case, work, rec):
                     rec.skip("position within the snapping tolerance of a cell centre")
                     continue
                 fl = rng.choice([["all"], ["a" + "xyz"[n], "tag" + "xyz"[n], "rnd", "grid_level"],
-                                 ["rnd"], ["a" + "xyz"[n], "grid_level"], ["tagx", "ay"], ["near", "rnd"]])
+                                 ["rnd"], ["a" + "xyz"[n], "grid_level"], ["tagx", "ay"], ["near", "rnd"],
+                                 ["grid_level", "rnd"], ["tag" + "xyz"[n], "grid_level", "a" + "xyz"[n]],
+                                 ["grid_level", "near", "ax"], ["ci" + "xyz"[n], "rnd"]])
                 serial = rng.random() < 0.5
                 key = (digest, n, pos, limit, serial, tuple(fl))
                 descr = f"normal={'xyz'[n]} pos={pos!r} ({cls}) limit_level={limit} serial={serial} fields={fl}"
